@@ -769,7 +769,7 @@ def overlapping_calls(ctx, e):
                                 desc, outs[0] if outs is not None else None, ' | '.join(seen))
 
 
-def chained_runs(ctx, e):
+def chained_runs(ctx, e, only_plans=None, prefix='C08:chain'):
     """several doInTransaction calls in a row while the program keeps its instances of rows 1 and 2 across ALL of them:
     after every call the kept instances (and a fresh get) show the committed rows on the restored connection"""
     caller = e['workers'][1]
@@ -781,6 +781,8 @@ def chained_runs(ctx, e):
     for cfg in CONFIGS:
         for mode in ('get', 'select'):
             for pi, plan in enumerate(plans):
+                if only_plans is not None and pi not in only_plans:
+                    continue
                 n += 1
                 ac, acv = AUTOCOMMITS[n % 3]
                 configure(e, cfg, acv)
@@ -811,7 +813,7 @@ def chained_runs(ctx, e):
                     for c in e['conns']:
                         c.autoCommit = True
                     held, fresh = caller.call('orm_view', [], True)
-                    key = 'C08:chain:%s:ac%s:cache%s:%s:plan%d:run%d' % (cfg, ac, e['variant'][0], mode, pi, i + 1)
+                    key = '%s:%s:ac%s:cache%s:%s:plan%d:run%d' % (prefix, cfg, ac, e['variant'][0], mode, pi, i + 1)
                     ctx.case(key, sample={'case': desc, 'run': i + 1, 'held': held, 'rows': fmt_rows(raw)}, kind='chained calls')
                     if raw != rows:
                         ctx.oracle_fail(key + ':rows', 'after call %d of the chain the committed rows are%s, expected%s'
